@@ -20,15 +20,21 @@ CrsTags == {NoCrs, CrsA, CrsA2, CrsB}
 
 Families ==
   [ crs |-> {[t |-> "crs", crs |-> <<c, sp>>] : c \in {"A", "B", "C"}, sp \in {"int", "epsg", "epsgup", "wkt", "dict", "pyproj", "crsobj", "pickle"}},
-    bbox |-> {[t |-> "bbox", box |-> b, crs |-> c] : b \in {<<0, 0, 4, 4>>, <<1, 0, 4, 4>>, <<0, 1, 4, 4>>, <<0, 0, 5, 4>>, <<0, 0, 4, 5>>}, c \in CrsTags},
+    \* nudge = index of the coordinate moved by 1e-7 (0: none)
+    bbox |-> {[t |-> "bbox", box |-> b, crs |-> c, nudge |-> 0] : b \in {<<0, 0, 4, 4>>, <<1, 0, 4, 4>>, <<0, 1, 4, 4>>, <<0, 0, 5, 4>>, <<0, 0, 4, 5>>}, c \in CrsTags}
+            \cup {[t |-> "bbox", box |-> <<0, 0, 4, 4>>, crs |-> c, nudge |-> n] : n \in {1, 4}, c \in {CrsA, CrsA2}},
     geobox |-> {[t |-> "geobox", shape |-> s, aff |-> a, crs |-> c] :
-                  s \in {<<3, 4>>, <<4, 3>>, <<3, 5>>}, a \in {"northup", "shifted", "scaled", "rotated", "flipped"}, c \in {NoCrs, CrsA, CrsA2, CrsB}},
+                  s \in {<<3, 4>>, <<4, 3>>, <<3, 5>>}, a \in {"northup", "shifted", "scaled", "rotated", "flipped"}, c \in {NoCrs, CrsA, CrsA2, CrsB}}
+              \* the finest one-field perturbations: each affine coefficient changed by less than a hundredth (of a metre / of a pixel),
+              \* and two fine lon/lat grids whose coefficients agree to 4 decimals
+              \cup {[t |-> "geobox", shape |-> <<3, 4>>, aff |-> a, crs |-> c] :
+                  a \in {"tiny_a", "tiny_b", "tiny_c", "tiny_d", "tiny_e", "tiny_f", "deg_fine", "deg_fine2", "deg_fine_shift"}, c \in {CrsA, CrsA2}},
     geom |-> {[t |-> "geom", kind |-> k, v |-> v, crs |-> c] :
                 k \in {"point", "line", "polygon", "polyhole", "multipoint", "multipolygon", "collection"}, v \in {0, 1}, c \in {NoCrs, CrsA, CrsA2, CrsB}},
     tiles |-> {[t |-> "tiles", base |-> b, tile |-> s] : b \in {<<10, 10>>, <<11, 10>>, <<10, 11>>, <<12, 12>>, <<8, 8>>}, s \in {<<4, 4>>, <<4, 5>>, <<5, 4>>, <<12, 12>>}},
     vtiles |-> {[t |-> "vtiles", cy |-> cy, cx |-> cx] : cy \in {<<4, 4, 2>>, <<4, 4, 3>>, <<4, 6>>, <<10>>, <<2, 4, 4>>}, cx \in {<<5, 5>>, <<5, 6>>, <<10>>}},
     gbtiles |-> {[t |-> "gbtiles", shape |-> s, aff |-> a, crs |-> c, tile |-> ts] :
-                  s \in {<<8, 8>>, <<9, 8>>}, a \in {"northup", "shifted"}, c \in {CrsA, CrsA2, CrsB}, ts \in {<<4, 4>>, <<4, 3>>}},
+                  s \in {<<8, 8>>, <<9, 8>>}, a \in {"northup", "shifted", "tiny_c", "tiny_e"}, c \in {CrsA, CrsA2, CrsB}, ts \in {<<4, 4>>, <<4, 3>>}},
     xy |-> {[t |-> k, x |-> x, y |-> y] : k \in {"xy"}, x \in {0, 1, 2}, y \in {0, 1, 2}},
     ixy |-> {[t |-> k, x |-> x, y |-> y] : k \in {"index2d"}, x \in {0, 1, 2}, y \in {0, 1, 2}},
     shape2d |-> {[t |-> k, x |-> x, y |-> y] : k \in {"shape2d"}, x \in {1, 2, 3}, y \in {1, 2, 3}},
